@@ -48,10 +48,92 @@ def chaintime_part(v, tier):
     vf.conformance(v, ct_scenarios(tier), ct_driver, "Trace_ChainTime", "Trace_ChainTime.cfg", ct_sig, ct_nontrivial)
 
 
+# ------------------------------------------------------------------------------------------
+# controller: the real controller/standard.Service against Controller.tla
+# ------------------------------------------------------------------------------------------
+CTL_PKG = "./services/controller/standard"
+CTL_TEST = "TestVerifC03"
+
+
+def ctl_driver(scenarios, tag):
+    return vf.run_driver(PID, CTL_PKG, CTL_TEST, scenarios, "ctl-" + tag, timeout=900)
+
+
+def ctl_sig(s):
+    """Describes the history: configuration and the shape of the first start-up (what the known
+    defects hang on), plus which kinds of stimuli occur."""
+    reset = s["steps"][0]
+    cfg = reset["cfg"]
+    now = reset["now"]
+    first = None
+    for st in s["steps"][1:]:
+        if st["ev"] == "Advance" and first is None:
+            now += 1
+        if st["ev"] == "Start":
+            first = st
+            break
+    evs = {st["ev"] for st in s["steps"]}
+    return {
+        "part": "controller",
+        "fork": cfg["fork"],
+        "fork_positive": cfg["fork"] > 0,
+        "start_epoch": (now // cfg["p"]) if first else -1,
+        "start_in_epoch0_after_fork": bool(first) and now // cfg["p"] == 0 and cfg["fork"] == 0,
+        "waited_for_genesis": bool(first and first.get("w")),
+        "delayed_replies": "Hold" in evs,
+        "reorg": "Reorg" in evs,
+        "restart": sum(1 for st in s["steps"] if st["ev"] == "Start") > 1,
+    }
+
+
+def ctl_nontrivial(s, rows):
+    # exercises the property's antecedent: duties were obtained and turned into jobs, and then
+    # either a head event made the controller fetch again (reorg refresh), or the controller was
+    # restarted, or a duty job was run
+    had_jobs = any(r.get("ev") == "Start" and r.get("jobs") for r in rows)
+    refresh = any(r.get("ev") == "HeadEvent" and r.get("fetches") for r in rows)
+    restart = sum(1 for r in rows if r.get("ev") == "Start") > 1
+    ran = any(r.get("done") for r in rows)
+    return had_jobs and (refresh or restart or ran)
+
+
+def ctl_scenarios(tier):
+    fams = [("Scen_Controller.cfg", 320 if tier == "quick" else 2400, 160),
+            ("Scen_Controller_wide.cfg", 120 if tier == "quick" else 1200, 260)]
+    out = []
+    for cfg, n, depth in fams:
+        hs = vf.tlc_scenarios(PID, "Scen_Controller", cfg, num=n * 2, depth=depth,
+                              name="scen-" + cfg.replace(".cfg", ""), timeout=900)
+        out += hs[:n]
+    return [{"sc": i + 1, "steps": h} for i, h in enumerate(out)]
+
+
+def controller_part(v, tier):
+    v.add_mc(vf.tlc_exhaustive(PID, "MC_Controller", "MC_Controller.cfg", name="mc-ctl"))
+    if tier == "thorough":
+        v.add_mc(vf.tlc_exhaustive(PID, "MC_Controller", "MC_Controller_big.cfg", name="mc-ctl-big",
+                                   workers=min(vf.NCPU, 12), timeout=1500, heap="8g", coverage=False))
+    vf.conformance(v, ctl_scenarios(tier), ctl_driver, "Trace_Controller", "Trace_Controller.cfg",
+                   ctl_sig, ctl_nontrivial, dfs=True, chunk=200 if tier == "quick" else 400)
+
+
 def run(tier):
     v = vf.Verdict(PID, tier)
-    v.assumptions = []
+    v.assumptions = [
+        "Env_GenesisRootsFixed: duty-dependent roots of epoch boundaries 0 and below never change",
+        "Env_HeadImpliesBlock: a head event for the current slot means that slot's block exists (its proposal is not rescheduled)",
+        "Env_TickBeforeHead: the epoch ticker of an epoch's first slot runs before that slot's head event is handled",
+        "Env_TimelyScheduler: the clock does not pass a job's slot before the scheduler has started the job; jobs start earliest-first",
+        "head events are delivered for the current slot and carry the roots in force; reorgs reach at most the previous epoch's boundary",
+        "beacon node, accounts, clock, scheduler and duty services are scripted fakes at the controller's interfaces; the chain-time service is bound separately",
+    ]
     chaintime_part(v, tier)
+    controller_part(v, tier)
+    v.coverage["rule"] = ("chain time: TLC-enumerated parameter sweep (slot duration x slots per epoch x genesis position) replayed on "
+                          "chaintime/standard, non-trivial = epoch-side conversions and a clock reading sampled; controller: behaviours "
+                          "of Controller.tla from TLC simulation (seeded) over seed-derived duty oracles and configuration families, "
+                          "replayed on the real controller, non-trivial = duties became jobs and then a reorg refresh, a restart or a "
+                          "job execution followed; distinct by step list")
     return v.finish()
 
 
@@ -61,4 +143,6 @@ def replay(path):
         s = json.load(fh)
     if s["steps"][0].get("gk") is not None:
         vf.conformance(v, [s], ct_driver, "Trace_ChainTime", "Trace_ChainTime.cfg", ct_sig, ct_nontrivial)
+    else:
+        vf.conformance(v, [s], ctl_driver, "Trace_Controller", "Trace_Controller.cfg", ctl_sig, ctl_nontrivial, dfs=True)
     return 1 if v.violations else 0
